@@ -18,7 +18,7 @@ Qed.
 
 Definition cfg_okb (cfg : rcfg) : bool :=
   coversb (c_lp cfg) && coversb (c_nack cfg) && coversb (c_interest cfg) && coversb (c_data cfg)
-  && c_frag_guard cfg && catches (c_fragtl cfg) EIndex && catches (c_fragtl cfg) EStruct.
+  && (1 <=? c_frag_guard cfg) && catches (c_fragtl cfg) EIndex && catches (c_fragtl cfg) EStruct.
 
 Lemma try_parse_no_raise {A} tuple site (r : res A) k e :
   covers tuple -> res_documented r -> (forall a, r = Ok a -> k a <> ARaise e) ->
@@ -56,8 +56,8 @@ Proof.
   unfold classify. destruct (typ =? TYPE_LP_PACKET); [|apply dispatch_no_raise; assumption].
   apply try_parse_no_raise; [exact Hl|apply dec_lp_doc|]. intros vs _. cbv zeta.
   destruct (match field_value _ vs LP_FRAGMENT with VBytes b => Some b | _ => None end) as [d|].
-  - rewrite Hg. destruct d as [|b d']; [discriminate|]. cbn [andb].
-    unfold try_parse. destruct (tl_dec (b :: d')) as [[t sz]|e0] eqn:E.
+  - destruct ((c_frag_guard cfg =? 1) && _); [discriminate|].
+    unfold try_parse. destruct (tl_dec d) as [[t sz]|e0] eqn:E.
     + apply dispatch_no_raise; assumption.
     + destruct (tl_dec_err _ _ E) as [-> | ->]; [rewrite HtI|rewrite HtS]; discriminate.
   - rewrite Hg. discriminate.
@@ -113,9 +113,9 @@ Section Pipeline.
     unfold classify. destruct (typ =? TYPE_LP_PACKET); [|apply D].
     unfold try_parse at 1. destruct (dec_lp data) as [vs|e]; [|destruct (catches _ _); exact I]. cbv zeta.
     destruct (match field_value _ vs LP_FRAGMENT with VBytes b => Some b | _ => None end) as [d|].
-    - destruct (c_frag_guard cfg && _); [exact I|]. unfold try_parse.
+    - destruct ((c_frag_guard cfg =? 1) && _); [exact I|]. unfold try_parse.
       destruct (tl_dec d) as [[t sz]|e]; [apply D|destruct (catches _ _); exact I].
-    - destruct (c_frag_guard cfg); [exact I|]. destruct (catches _ _); exact I.
+    - destruct (1 <=? c_frag_guard cfg); [exact I|]. destruct (catches _ _); exact I.
   Qed.
 End Pipeline.
 
